@@ -1,5 +1,5 @@
 #!/bin/sh
-# sweep.sh <seed>... -- run inside a `vp run --with-repo` snapshot: every quick check on the unchanged tree under each
+# [TIER=thorough] [PROPS="01 09"] sweep.sh <seed>... -- run inside a `vp run --with-repo` snapshot: every quick check on the unchanged tree under each
 # VERIF_SEED given; prints one line per check, "ALARM" lines for anything that is not quiet.
 R=${VP_RUN_REPO:?needs vp run --with-repo}
 sed -i "s#path = \"/repo\"#path = \"$R\"#" harness/Cargo.toml harness/cfail/Cargo.toml
@@ -8,8 +8,8 @@ export VERIF_REPO=$R CARGO_NET_OFFLINE=true
 ./setup.sh > sweep-setup.log 2>&1
 tail -1 sweep-setup.log
 for seed in "$@"; do
-  for p in 01 02 03 04 05 06 07 08 09 10 11 12 13 14 15 16 17 18 19 20; do
-    out=$(VERIF_SEED=$seed ./check C$p 2>&1 | grep -E "^\[check\] C|VIOLATION|KNOWN|problem" | cut -c1-260)
+  for p in ${PROPS:-01 02 03 04 05 06 07 08 09 10 11 12 13 14 15 16 17 18 19 20}; do
+    out=$(VERIF_SEED=$seed ./check C$p --tier ${TIER:-quick} 2>&1 | grep -E "^\[check\] C|VIOLATION|KNOWN|problem" | cut -c1-260)
     echo "seed=$seed $out"
     echo "$out" | grep -q "VIOLATION\|problem" && echo "ALARM seed=$seed C$p"
   done
